@@ -37,5 +37,20 @@ def run : P String := do
     (w', acc.2 ++ [rs ++ " " ++ fmtOpt w'.file ++ " " ++ fmtOpt w'.sidecar ++ " " ++ toString w'.handles])) (w0, [])
   pure (String.intercalate " | " outs)
 
+/-- `runat <npy> <nops> (<path> <op>)…` → per op: result, then file id and sidecar id of paths 0 and 1.
+    Initially path 0 holds a finished run, path 1 does not exist. -/
+def runat : P String := do
+  let npy ← pBool; let n ← pNat
+  let ops ← pRepeat n (do let p ← pNat; let o ← pOp; pure (p, o))
+  pEnd
+  let w0 : World := { file := some 0, sidecar := if npy then some 1 else none, handles := 0, fresh := 2 }
+  let w1 : World := { file := none, sidecar := none, handles := 0, fresh := 100 }
+  let d0 : Disk := fun q => if q = 0 then w0 else w1
+  let (_, outs) := ops.foldl (fun (acc : Disk × List String) po =>
+    let (d', r) := stepAt npy acc.1 po
+    let rs := match r with | .ok => "ok" | .fileExists => "exists" | .rejected => "rejected"
+    (d', acc.2 ++ [rs ++ " " ++ fmtOpt (d' 0).file ++ " " ++ fmtOpt (d' 0).sidecar ++ " " ++ fmtOpt (d' 1).file ++ " " ++ fmtOpt (d' 1).sidecar])) (d0, [])
+  pure (String.intercalate " | " outs)
+
 end C11
 end HmcVerif
